@@ -51,6 +51,30 @@ type evaluator struct {
 	yield     func(struct{}) bool
 	retVal    Value
 	depth     int
+	arena     []Cell
+}
+
+// cells returns n zeroed cells carved from a chunk (values are immutable once
+// built and chunks are never reused, so sharing a chunk is safe; this only
+// reduces the number of heap allocations).
+func (ev *evaluator) cells(n int) []Cell {
+	if n > 64 {
+		return make([]Cell, n)
+	}
+	if len(ev.arena) < n {
+		ev.arena = make([]Cell, 1024)
+	}
+	c := ev.arena[:n:n]
+	ev.arena = ev.arena[n:]
+	return c
+}
+
+func (ev *evaluator) mk(t *Type) Value { return Value{T: t, C: ev.cells(t.nsc)} }
+
+func (ev *evaluator) cloneValue(v Value) Value {
+	c := ev.cells(len(v.C))
+	copy(c, v.C)
+	return Value{T: v.T, C: c}
 }
 
 type trapPanic struct{ msg string }
@@ -400,27 +424,27 @@ func (ev *evaluator) load(r Ref) Value {
 			if cs == 0 {
 				cs = 4
 			}
-			v := mkValue(r.T)
+			v := ev.mk(r.T)
 			sc := r.T.Scalar()
 			for i, k := range r.swz {
 				v.C[i] = ev.bufLoad32(r.buf, r.off+int(k)*cs, sc)
 			}
 			return v
 		}
-		v := Value{T: r.T, C: make([]Cell, 0, r.T.nsc)}
+		v := Value{T: r.T, C: ev.cells(r.T.nsc)[:0]}
 		ev.bufWalk(r.T, r.lay, r.off, r.compStride, func(off int, st *Type) {
 			v.C = append(v.C, ev.bufLoad32(r.buf, off, st))
 		})
 		return v
 	}
 	if r.swz != nil {
-		v := mkValue(r.T)
+		v := ev.mk(r.T)
 		for i, k := range r.swz {
 			v.C[i] = r.cells[k]
 		}
 		return v
 	}
-	v := Value{T: r.T, C: make([]Cell, len(r.cells))}
+	v := Value{T: r.T, C: ev.cells(len(r.cells))}
 	copy(v.C, r.cells)
 	return v
 }
@@ -461,14 +485,14 @@ func (ev *evaluator) eval(e Expr) Value {
 	ev.step()
 	b := e.base()
 	if b.CV != nil {
-		return b.CV.clone()
+		return ev.cloneValue(*b.CV)
 	}
 	if b.T != nil && b.T.Base() == KDouble {
 		ev.trap("unsupported: double-precision arithmetic")
 	}
 	switch x := e.(type) {
 	case *Lit:
-		return x.V.clone()
+		return ev.cloneValue(x.V)
 	case *Ident:
 		return ev.load(ev.evalRef(x))
 	case *Unary:
@@ -548,7 +572,7 @@ func oneOf(t *Type) Value {
 }
 
 func (ev *evaluator) unary(op string, v Value) Value {
-	r := mkValue(v.T)
+	r := ev.mk(v.T)
 	base := v.T.Base()
 	for i, c := range v.C {
 		if c.P != 0 {
@@ -729,7 +753,7 @@ func (ev *evaluator) scalarBinary(op string, k Kind, rk Kind, a, b Cell) (Cell, 
 func (ev *evaluator) binaryValues(op string, mode binMode, l, r Value, rt *Type, pos Pos) Value {
 	switch mode {
 	case bmComponent:
-		res := mkValue(rt)
+		res := ev.mk(rt)
 		k := l.T.Base()
 		rk := r.T.Base()
 		n := len(res.C)
@@ -783,7 +807,7 @@ func (ev *evaluator) binaryValues(op string, mode binMode, l, r Value, rt *Type,
 	case bmMatVec:
 		// result[row] = sum over col of m[col][row] * v[col]
 		m := l.T
-		res := mkValue(rt)
+		res := ev.mk(rt)
 		for row := 0; row < m.Rows; row++ {
 			res.C[row] = ev.dotCells(m.Cols, func(c int) (Cell, Cell) { return l.C[c*m.Rows+row], r.C[c] })
 		}
@@ -791,7 +815,7 @@ func (ev *evaluator) binaryValues(op string, mode binMode, l, r Value, rt *Type,
 	case bmVecMat:
 		// result[col] = dot(v, m[col])
 		m := r.T
-		res := mkValue(rt)
+		res := ev.mk(rt)
 		for col := 0; col < m.Cols; col++ {
 			res.C[col] = ev.dotCells(m.Rows, func(k int) (Cell, Cell) { return l.C[k], r.C[col*m.Rows+k] })
 		}
@@ -799,7 +823,7 @@ func (ev *evaluator) binaryValues(op string, mode binMode, l, r Value, rt *Type,
 	case bmMatMat:
 		// result[col][row] = sum over k of l[k][row] * r[col][k]
 		lm, rm := l.T, r.T
-		res := mkValue(rt)
+		res := ev.mk(rt)
 		for col := 0; col < rm.Cols; col++ {
 			for row := 0; row < lm.Rows; row++ {
 				res.C[col*lm.Rows+row] = ev.dotCells(lm.Cols, func(k int) (Cell, Cell) {
@@ -945,7 +969,7 @@ func (ev *evaluator) convertValue(v Value, to *Type, explicit bool) Value {
 	if tb == KDouble || fb == KDouble {
 		ev.trap("unsupported: double-precision arithmetic")
 	}
-	r := mkValue(to)
+	r := ev.mk(to)
 	for i := range r.C {
 		r.C[i] = ev.convertCell(v.C[i], fb, tb)
 	}
@@ -965,9 +989,11 @@ func (ev *evaluator) construct(x *Call) Value {
 	switch t.Kind {
 	case KBool, KInt, KUint, KFloat:
 		a := args[0]
-		return Value{T: t, C: []Cell{ev.convertCell(a.C[0], a.T.Base(), t.Kind)}}
+		r := ev.mk(t)
+		r.C[0] = ev.convertCell(a.C[0], a.T.Base(), t.Kind)
+		return r
 	case KVec:
-		r := mkValue(t)
+		r := ev.mk(t)
 		tb := t.Elem.Kind
 		if len(args) == 1 && args[0].T.IsScalar() {
 			c := ev.convertCell(args[0].C[0], args[0].T.Kind, tb)
@@ -988,7 +1014,7 @@ func (ev *evaluator) construct(x *Call) Value {
 		}
 		return r
 	case KMat:
-		r := mkValue(t)
+		r := ev.mk(t)
 		tb := t.Elem.Kind
 		if len(args) == 1 && args[0].T.IsScalar() {
 			c := ev.convertCell(args[0].C[0], args[0].T.Kind, tb)
